@@ -339,6 +339,17 @@ class BWalk(omp.Region):
             if not pol:
                 op = {"<": ">=", "<=": ">", ">": "<=", ">=": "<", "==": "!=", "!=": "=="}[op]
             t = "%s%s" % ("" if pol else "!", estr(c))
+
+            def signed_under_unsigned_cast(e_):
+                """(unsigned T) x  with x of a signed integer type: the comparison is made on the wrapped value"""
+                return e_.k == "cast" and is_unsigned_ty(e_.ty or "") and is_int_ty(strip_ty(e_.a[0])) and not is_unsigned_ty(strip_ty(e_.a[0]) or "")
+            if (signed_under_unsigned_cast(c.a[0]) or signed_under_unsigned_cast(c.a[1])) and op in ("<", "<=", ">", ">="):
+                # the one-comparison range check:  (unsigned) x < (unsigned) y  with y >= 0  <=>  0 <= x < y.  Without y >= 0 nothing follows.
+                small, big = (a, b) if op in ("<", "<=") else (b, a)
+                if self.prover is not None and self.prover.prove(big, known or [], 2) is not None:
+                    out.append(Fact(small, "cond", t))
+                    out.append(Fact(big - small - (1 if op in ("<", ">") else 0), "cond", t))
+                return out
             if op == "<":
                 out.append(Fact(b - a - 1, "cond", t))
             elif op == "<=":
